@@ -466,6 +466,28 @@ func (s *stubServer) maybeCorrupt(v any, permil int, what string) any {
 	if len(ps) == 0 {
 		return v
 	}
+	if what == "schema" && s.r.Intn(3) == 0 {
+		// the typed corners of a schema: an enum, a type, a key/value description,
+		// min/max, refTable, indexes - given a well-formed value of the wrong shape
+		shapes := []any{[]any{"set", "permit"}, []any{"set", 5}, []any{"set", nil}, []any{"set", map[string]any{}}, []any{"set"}, []any{"set", []any{}},
+			"permit", 5, nil, []any{}, map[string]any{}, []any{"map", []any{}}, []any{"set", []any{"a", 1}}, "unlimited", -1, 1.5, []any{[]any{1}}, []any{"nosuchcolumn"}}
+		var typed []jpath
+		for _, q := range ps {
+			switch q.key {
+			case "enum", "type", "key", "value", "min", "max", "refTable", "refType", "indexes", "columns", "mutable", "ephemeral":
+				typed = append(typed, q)
+			}
+		}
+		if len(typed) > 0 {
+			q := typed[s.r.Intn(len(typed))]
+			var j any
+			_ = json.Unmarshal(mustJSON(shapes[s.r.Intn(len(shapes))]), &j)
+			q.set(j)
+			s.sent["corrupted_"+what]++
+			s.e.Faults["corrupt_"+what]++
+			return cp
+		}
+	}
 	for n := 0; n < 1+s.r.Intn(2); n++ {
 		p := ps[s.r.Intn(len(ps))]
 		if m, ok := p.parent.(map[string]any); ok && s.r.Intn(3) == 0 {
